@@ -462,6 +462,25 @@ Proof.
   - intros c Hc. apply in_map_iff in Hc. destruct Hc as [i [<- _]]. rewrite map_length, c_block_length; lia.
 Qed.
 
+(* a grid cell the score does not depend on (the outputs on C_i equal the outputs on A) gets exactly 0 *)
+Lemma sobol_cell_zero_inert score pf g H W C bs n A B x t i :
+  (1 <= bs)%nat -> is_matrix n (g * g) A -> is_matrix n (g * g) B -> (i < g * g)%nat ->
+  (forall ra rc, In (ra, rc) (combine A (c_block i A B)) ->
+      score (perturb (pf x) g H W C x rc) t = score (perturb (pf x) g H W C x ra) t) ->
+  nthq (nth 0 (sobol_explain score jansen pf g H W C bs n (replicated_design (g * g) A B) [x] [t]) []) i = 0.
+Proof.
+  intros Hb HA HB Hi Hs. rewrite sobol_map_is_estimator by assumption. cbn [map2 nth]. cbv zeta.
+  unfold nthq. rewrite nth_map_seq by exact Hi.
+  set (s := fun m => score (perturb (pf x) g H W C x m) t).
+  assert (E : map s (c_block i A B) = map s A).
+  { pose proof HA as [HAl _]. pose proof HB as [HBl _].
+    assert (Hlen : length (c_block i A B) = length A) by (apply c_block_length; lia).
+    revert Hlen Hs. generalize (c_block i A B) as Cb. clear. intros Cb. revert Cb.
+    induction A as [|ra A IH]; intros [|rc Cb] Hlen Hs; cbn [length] in Hlen; try lia; [reflexivity|].
+    cbn [map]. f_equal; [apply Hs; left; reflexivity|]. apply IH; [lia|]. intros a c Hin. apply Hs. right. exact Hin. }
+  rewrite E. apply jansen_zero_inert.
+Qed.
+
 (* ---------- HSIC ---------- *)
 Lemma hsic_batch_map gramf L n xs : hsic_batch gramf L n xs = map (hsic_one gramf L n) xs.
 Proof. reflexivity. Qed.
